@@ -207,7 +207,7 @@ func seqOps(n []int64, buf []uint8) []uint8 {
 	return ops
 }
 
-func phaseSeq(fullDepth, _ int) { phaseSeqLevels("seq", 1, fullDepth, 0) }
+func phaseSeq(fullDepth int) { phaseSeqLevels("seq", 1, fullDepth, 0) }
 
 var seqStopped bool
 
@@ -408,7 +408,7 @@ func main() {
 	// shortens the enumeration without making it vacuous
 	phaseStates()
 	phaseStateOps(1, 1)
-	phaseSeq(seqDepth, seqDepth)
+	phaseSeq(seqDepth)
 	phaseGC()
 	phaseProofs()
 	phaseRange()
